@@ -550,13 +550,34 @@ CHECKS = {'C01': {'text': 'MODELLED: Lex.lean (Lexer.__next__ and every _read_*,
                  'four options by printSchemaXTA_eq_printSchemaX (+ _default: no hypothesis when no directive application is printed) and runHistoryX_texts. '
                  'h5_* / h12_width_boundary state the other description findings. Every history also runs in ONE forked child and every call alone in a fresh '
                  'child; direct oracles dump(build(to_string(s))) == dump(s), fixpoint, parser accepts, root names differing only by case, non-root types '
-                 'named Query/Mutation/Subscription, exotic strings, look-alike numeric ID defaults, description edge cases.',
+                 'named Query/Mutation/Subscription, exotic strings, look-alike numeric ID defaults, description edge cases. AFTER AUDIT 3 (builder sdl3): THE '
+                 "THIRD CLAUSE ('serialising the rebuilt schema reproduces the same text') is a theorem: print_fixpoint_text (printTextWF and printBuildWF => "
+                 "the text parses, the parsed document builds s', printSchemaT o s' = printSchemaT o s, and s' is again inside both predicates), "
+                 'print_fixpoint_text_custom (applied directives), print_fixpoint_string (the String model of the history correspondence), reprint_of_build. '
+                 "EVERY PRE-IMAGE (F9): SdlText.astToDoc rho is the conversion parsed tree -> document as a FUNCTION of the tree (rho stands for Python's "
+                 'repr(float(.)), a parameter); docToAst_left_inverse (astToDoc rho (docToAst doc) = reDoc rho doc: docToAst drops nothing but the f '
+                 "components and the member lists not of a definition's kind), docToAst_injective_on_canon, text_roundtrip_every_preimage / "
+                 '_custom_every_preimage and print_fixpoint_every_preimage (no existential over documents: the document converted from the parsed tree - and '
+                 'every canonical document with that tree - builds the schema), hypothesis CanonDoc rho (printedDoc s) reduced to the printed default literals '
+                 "by canonDoc_schemaToDoc / litsCanon_of_wf and EVALUATED on every run with Python's real repr(float(v)) (driver op printT: canon, preimage). "
+                 "VALIDITY (F10): valid_implies_printWF - C13's ValidSchema (on the view that includes the specified types: Covers s full) and the decidable "
+                 'residual printResidual o s (every conjunct a named exclusion: NoH5/NoH12 descriptions, NoH6, NoH2/NoH8/printable defaults, SDL-style unique '
+                 'enum values, representation invariants, no reference cycle, options) imply printTextWF o s and printBuildWF s; validity discharges every '
+                 'name-lexeme clause, non-emptiness, reference resolution and the roots; printResidual_necessary (the residual FOLLOWS from the two '
+                 'predicates: on valid schemas it is exactly the domain of the theorems); valid_roundtrip (the property for valid schemas, exclusions named); '
+                 "h2_valid_but_excluded (a schema that passes C13's validation and fails only the NoH2 clause: the residual is not redundant). "
+                 'include_descriptions=False (F8): printSchemaT_descriptions_off (with descriptions off the printer prints the description-free schema '
+                 'stripSchema s, no hypothesis), print_schema_text_parses_nodesc, print_fixpoint_text_nodesc (round trip and fixpoint for the other value of '
+                 'the option; the description clauses NoH5/NoH12 are vacuous there); evaluated by the driver on every call with descriptions off (wfStrip, '
+                 'parsesStrip).',
          'note': 'Trusted: Lean kernel; generators; the library constants of include_introspection are re-read, not modelled. The text-level theorems do not '
                  'cover include_introspection=True (its library descriptions are re-wrapped: finding H12, and its output is not rebuildable: C12/1); for '
                  'include_introspection=True the whole-schema PARSE theorem is not composed (the specified directives are printed first and unsorted, outside '
                  "the print-order core lemma); its text is the Text model's (printSchemaXTA_eq_printSchemaX) and each of its re-wrapped descriptions lexes to "
                  'one block string (wrapped_description_lexes). Known findings H2, H5, H6, H8, H12, C12/1, C12/5, C12/6, C12/7 (see known_findings.json). '
-                 'Repaired: H1, H3, H9, H11.',
+                 "Repaired: H1, H3, H9, H11. (sdl3) Python's repr(float(.)) is NOT modelled: the every-pre-image theorems quantify over rho and assume it "
+                 'agrees with the printer on the printed numerals (true of every schema of the streams; asked also at ID / custom-scalar positions where build '
+                 'does not read f). valid_implies_printWF depends on the generated name tables of C13 (VALID_NAME_RE).',
          'technique': 'Lean 4 proof (printer purity over call histories and all options, document- and text-level round trip with applied directives, builder '
                       'blind to custom applications, equality of the two printer models, re-wrapped descriptions lex to one block string) + exact-text '
                       'correspondence of the printer models + fresh-process reference + round-trip oracle'},
